@@ -129,7 +129,9 @@ def check_oracle(d, facts):
         for a in fs["getters"] + fs["setters"]:
             if a["byte_order"] != bo:
                 bad.append((name, f"{a['name']} uses byte order {a['byte_order']}, effective is {bo}"))
-            if a["func"].split("_")[1].upper() != bi:
+            if not isinstance(a.get("func"), str):
+                bad.append((name, f"{a['name']} does not go through a device_driver::ops load/store function"))
+            elif a["func"].split("_")[1].upper() != bi:
                 bad.append((name, f"{a['name']} uses {a['func']}, effective bit order is {bi}"))
     return bad
 
@@ -204,6 +206,10 @@ def l2_phase(ctx, exe, rng, nmods):
                     qs.append(("get", cid, j, k, b, conv, rep))
                 for k, s in enumerate(fs["setters"]):
                     conv = s["conv"]
+                    if s.get("carrier") not in fs_common.CARRIER_BITS or s.get("start") is None or s.get("end") is None:
+                        # not the one ops call the emitter is known to write: reported by the L1 comparison above; its
+                        # BEHAVIOUR is still compared below through the byte-level queries of the other accessors
+                        continue
                     cb = fs_common.CARRIER_BITS[s["carrier"]]
                     w = s["end"] - s["start"]
                     if conv == "bool":
@@ -347,7 +353,7 @@ def run(ctx):
         want = model.get(cid)
         for fs in r["facts"]["field_sets"]:
             for a in fs["getters"] + fs["setters"]:
-                shapes.add((fs["size_bits"], a["start"] % 8, a["end"] % 8, a["carrier"], a["func"], a["byte_order"], a["conv"]))
+                shapes.add((fs["size_bits"], (a["start"] or 0) % 8, (a["end"] or 0) % 8, a["carrier"], a["func"], a["byte_order"], a["conv"]))
         if got != want:
             diffs.append((c, "emitted field-set facts differ from the model of the emission", got, want))
             continue
